@@ -799,7 +799,7 @@ class Run:
         seen_h = set()
         for b in bad:
             cprop = b["clause"].split(".")[0]
-            if cprop != self.prop and not (self.prop == "C20" and cprop in ("C01", "C06", "C07")):
+            if cprop != self.prop:
                 continue
             f = ledger_match(self.ledger, self.prop, b["dev"], b["t"]) if b["dev"] != "none" else None
             if f:
